@@ -124,6 +124,8 @@ func (e *c13Env) context(data int) *plush.Context {
 	c.Set("d", data)
 	c.Set("animal", c13Animals[data%2])
 	c.Set("deep", true)
+	c.Set("pat", []string{"^ab", "^x", "c$"}[data%3])
+	c.Set("pats", []string{"^ab", "zz", "c$"})
 	own := Person{Name: "own", Kid: &Person{Name: "ownkid"}}
 	c.Set("Own", own)
 	c.Set("rps", []struct{ Own Person }{{own}, {Person{Name: "o2", Kid: &Person{Name: "k2"}}}})
@@ -207,6 +209,8 @@ func c13Family() []string {
 		`<% let h = {"k": []} %><% h["k"] = h["k"] + 1 %><%= len(h["k"]) %>`,
 		`<% let f = fn(a, b) { return a } %><% let p = f.Parameters %><% p[0] = p[1] %><%= f("x", "y") %>`,
 		`<%= partial("pdyn") %>`,
+		// a match whose pattern is data: the same node meets different patterns in one execution and in later ones
+		`<%= "abc" ~= pat %>|<%= "xbc" ~= pat %>|<%= for (p) in pats { %><%= "abc" ~= p %>,<% } %>|<%= "abd" ~= "^" + pat %>`,
 		`<% let f = fn(a) { return a } %><% let b = f.Block %><%= f("x") %>`,
 		"<%= d %> <% let = 3 %> x <%= 1 + %>",
 		`<%= if (d == 0 { %>x<% } %>`,
@@ -264,7 +268,7 @@ func init() {
 			return s
 		},
 		Run:  c13Run,
-		Rule: "programs: a 35-template corpus covering every construct + a family of hash literals (1..4 entries, identifier/string/duplicate keys, side-effecting values), map loops, data maps, method calls on receivers of two dynamic types, a time value printed with and without a TIME_FORMAT in the context, a template that renders itself as a partial and fails inside a helper block of the inner execution, empty array/hash literals that are kept and written to, failing templates and templates that do not parse. (seq) every sequence of <=3 renders over 10 (template, data) pairs whose result is known outright - envOr / env of a variable that is not set (a name of its own per sequence) with different defaults, one path template over receivers that are different struct types printing the same type name with their fields in different order (and a map, a pointer, an embedding struct), cache off and on: every render gives its own known result whatever was rendered before it in the process. (paths) every program x 2 data sets: fresh parse, 3 repeated executions of one parsed template, Clone, cache cold, cache warm, cache off again — all (out, err, side-effect log) equal; deep structural hash (reflection over every field, cycle-safe) of the parsed program equal before and after every execution. (cross) every probe template (contentOf of every block name the corpus defines, unknown variables / functions, a time, a partial, a regexp match) renders the same before and after every corpus program was executed with fresh contexts, cache off and on - also for a probe that was parsed before and stays alive (its program hash, its executions and its Clone are unchanged by the other template's parse); (paths, cache) a text differing only in surrounding whitespace is another template: from the warm cache it renders what a fresh parse of it renders. (ctors) top-level bindings made by an execution whose context came from any of 6 constructors (and BuffaloRenderer with nil data) are invisible to later executions in fresh contexts from all 6; every history of <=4 calls of pluralize / singularize over 4 words gives each call one result. (env) every map-iteration call made during an execution is an environment choice point (runtime overlay): all single deviations (two in thorough) from the default order give the same (out, err, log); for-over-map output is compared as a multiset. (hist) explicit enumeration of histories over {fresh parse+exec, exec of a long-lived template, Clone+exec, Render through the cache, toggle CacheEnabled, CacheSet} x 6 templates (a partial whose feeder text depends on the context, ok with an empty hash literal that is written to, failing inside a block on line 3, failing at top level, method call, one that does not parse) x 2 data sets, from a cold and a warm cache; after every operation the result equals the pristine reference for (text, data), every live template's program hash is unchanged and a cached template was parsed from its key. Non-trivial: histories with >=2 operations / programs with a map or side effect.",
+		Rule: "programs: a 35-template corpus covering every construct + a family of hash literals (1..4 entries, identifier/string/duplicate keys, side-effecting values), map loops, data maps, method calls on receivers of two dynamic types, a time value printed with and without a TIME_FORMAT in the context, a template that renders itself as a partial and fails inside a helper block of the inner execution, empty array/hash literals that are kept and written to, failing templates and templates that do not parse. (seq) a Template whose exported Input field is written to after Parse (cache off / on): same rendering, same program, the cache still serves the original text; every sequence of <=3 renders over 10 (template, data) pairs whose result is known outright - envOr / env of a variable that is not set (a name of its own per sequence) with different defaults, one path template over receivers that are different struct types printing the same type name with their fields in different order (and a map, a pointer, an embedding struct), cache off and on: every render gives its own known result whatever was rendered before it in the process. (paths) every program x 2 data sets: fresh parse, 3 repeated executions of one parsed template, Clone, cache cold, cache warm, cache off again — all (out, err, side-effect log) equal; deep structural hash (reflection over every field, cycle-safe) of the parsed program equal before and after every execution. (cross) every probe template (contentOf of every block name the corpus defines, unknown variables / functions, a time, a partial, a regexp match) renders the same before and after every corpus program was executed with fresh contexts, cache off and on - also for a probe that was parsed before and stays alive (its program hash, its executions and its Clone are unchanged by the other template's parse); (paths, cache) a text differing only in surrounding whitespace is another template: from the warm cache it renders what a fresh parse of it renders. (ctors) top-level bindings made by an execution whose context came from any of 6 constructors (and BuffaloRenderer with nil data) are invisible to later executions in fresh contexts from all 6; every history of <=4 calls of pluralize / singularize over 4 words gives each call one result. (env) every map-iteration call made during an execution is an environment choice point (runtime overlay): all single deviations (two in thorough) from the default order give the same (out, err, log); for-over-map output is compared as a multiset. (hist) explicit enumeration of histories over {fresh parse+exec, exec of a long-lived template, Clone+exec, Render through the cache, toggle CacheEnabled, CacheSet} x 6 templates (a partial whose feeder text depends on the context, ok with an empty hash literal that is written to, failing inside a block on line 3, failing at top level, method call, one that does not parse) x 2 data sets, from a cold and a warm cache; after every operation the result equals the pristine reference for (text, data), every live template's program hash is unchanged and a cached template was parsed from its key. Non-trivial: histories with >=2 operations / programs with a map or side effect.",
 		Bound: func(th bool) string {
 			if th {
 				return "histories of length <=4 over the full 56-operation alphabet; all pairs of map-order deviations"
@@ -528,7 +532,13 @@ func c13Run(t *engine.T, shard string) {
 						return "", f
 					}
 					// other data in between, then again
-					c13Exec(tm, 1-d)
+					refOther := c13Fresh(src, 1-d)
+					if r := c13Exec(tm, 1-d); r != refOther {
+						return "", c13Loose("nondeterministic", "execution with the other data set on the template already executed: %+v differs from the fresh result %+v", r, refOther)
+					}
+					if r := c13Exec(tm.Clone(), 1-d); r != refOther {
+						return "", c13Loose("nondeterministic", "Clone executed with the other data set: %+v differs from the fresh result %+v", r, refOther)
+					}
 					if f := check("execution after one with other data", c13Exec(tm, d), tm); f != nil {
 						return "", f
 					}
@@ -837,6 +847,47 @@ func c13Seq(t *engine.T) {
 		{"row C", rowT, "T|O", false, c13RowC},
 		{"row D", rowT, "T|O", false, c13RowD},
 		{"row map", `<%= r["Title"] %>|<%= r["Owner"] %>`, "T|O", false, func() interface{} { return map[string]string{"Title": "T", "Owner": "O"} }},
+	}
+	// a parsed template is executed from its program: writing to the exported Input field afterwards changes neither
+	// what it renders, nor its program, nor what the cache serves for the original text
+	for _, cache := range []bool{false, true} {
+		for _, pair := range [][2]string{{`A<%= 1 + 1 %>`, `B<%= 2 + 2 %>`}, {`<%= d %>`, `<%= nope %>`}, {`x`, `<% let = %>`}, {`<%= "abc" ~= pat %>`, `<%= d %>`}} {
+			cache, pair := cache, pair
+			t.Case(fmt.Sprintf("seq cache=%v Input edited after Parse %q -> %q", cache, pair[0], pair[1]), true, func() (string, *engine.Fail) {
+				plush.VerifCacheReset()
+				plush.CacheEnabled = cache
+				defer func() { plush.CacheEnabled = false; plush.VerifCacheReset() }()
+				tm, err := plush.Parse(pair[0])
+				if err != nil {
+					return "", engine.Failf("harness", "%v", err)
+				}
+				h0 := astHash(tm)
+				r0 := c13Exec(tm, 0)
+				tm.Input = pair[1]
+				for i := 0; i < 2; i++ {
+					if r := c13Exec(tm, 0); r != r0 {
+						return "", engine.Failf("nondeterministic", "the parsed template rendered %+v, after its Input field was written to it renders %+v", r0, r)
+					}
+					if astHash(tm) != h0 {
+						return "", engine.Failf("program-mutated", "executing the template replaced its parsed program")
+					}
+				}
+				if r := c13Exec(tm.Clone(), 0); r != r0 {
+					return "", engine.Failf("nondeterministic", "a Clone renders %+v, the template %+v", r, r0)
+				}
+				e := &c13Env{}
+				out, err := plush.Render(pair[0], e.context(0))
+				if r := (c13Result{c13Canon(out), errStr(err), strings.Join(e.log, ",")}); r != r0 {
+					return "", engine.Failf("nondeterministic", "Render of the original text gives %+v after another Template value for it had its Input edited; before: %+v", r, r0)
+				}
+				if f2, err := plush.Parse(pair[0]); err == nil {
+					if r := c13Exec(f2, 0); r != r0 {
+						return "", engine.Failf("nondeterministic", "Parse of the original text gives a template rendering %+v, expected %+v", r, r0)
+					}
+				}
+				return "independent", nil
+			})
+		}
 	}
 	os.Setenv("VERIF_C13_SET", "is-set")
 	var rec func(seq []int)
